@@ -191,3 +191,45 @@ Proof.
       * apply rekey_inj in X. { subst. contradiction. } destruct (P k2) as [_ D2]; simpl; auto; try congruence.
       * apply (F k2); simpl; auto.
 Qed.
+
+(* ---- writer.open: on a file without a torn tail (every file of a crash-free state) it is mkdir + create --------------- *)
+Lemma sopen_fresh s k now : ~ In k (keys s) -> sopen s k now = [SMkdir (k_dag k); SCreate k now].
+Proof. intros N. unfold sopen. rewrite (proj2 (sget_none s k) N). reflexivity. Qed.
+Lemma sopen_clean s k f now : sget s k = Some f -> ftail f = TNone -> sopen s k now = [SMkdir (k_dag k); SCreate k now].
+Proof. intros G T. unfold sopen. rewrite G, T. reflexivity. Qed.
+Lemma sopen_torn s k f now : sget s k = Some f -> ftail f <> TNone -> sopen s k now = [SMkdir (k_dag k); SCreate k now; SAppend k CNl now].
+Proof. intros G T. unfold sopen. rewrite G. destruct (ftail f); try reflexivity. congruence. Qed.
+
+(* ---- the steps of the compaction (eb925d1): remove a stale temporary copy, write the copy, publish it with a rename ------------ *)
+Lemma unlink_absent s k : ~ In k (keys s) -> run_sprim s (SUnlink k) = s.
+Proof.
+  intros N. simpl. destruct s as [ds fs]. simpl in *. f_equal.
+  transitivity (filter (fun _ : sent => true) fs); [|apply filter_true]. apply filter_ext_in. intros e Ie.
+  destruct (skey_eqb k (fst e)) eqn:E; auto. apply skey_eqb_eq in E. subst k. exfalso. apply N. unfold keys. simpl. apply in_map. auto.
+Qed.
+Lemma tmpk_neq k : k_tmp k = false -> tmpk k <> k.
+Proof. intros T E. assert (X : k_tmp (tmpk k) = k_tmp k) by (rewrite E; reflexivity). simpl in X. congruence. Qed.
+Lemma tmpk_absent s k : (forall e, In e (sfiles s) -> k_tmp (fst e) = false) -> ~ In (tmpk k) (keys s).
+Proof.
+  intros P I. unfold keys in I. apply in_map_iff in I. destruct I as [e [E Ie]]. specialize (P e Ie). rewrite E in P. discriminate.
+Qed.
+(* renaming the last entry kt to a key kc that is not in the store *)
+Lemma rename_rest kt kc (fs : list sent) : ~ In kt (map fst fs) -> ~ In kc (map fst fs) ->
+  map (fun e : sent => if skey_eqb kt (fst e) then (kc, snd e) else e) (filter (fun e : sent => negb (skey_eqb kc (fst e))) fs) = fs.
+Proof.
+  induction fs as [|e fs IH]; simpl; intros Nt Nc; auto.
+  assert (E1 : skey_eqb kc (fst e) = false) by (apply skey_eqb_neq; intro X; apply Nc; auto).
+  assert (E2 : skey_eqb kt (fst e) = false) by (apply skey_eqb_neq; intro X; apply Nt; auto).
+  rewrite E1. simpl. rewrite E2. f_equal. apply IH; auto.
+Qed.
+Lemma rename_last ds fs kt kc f : ~ In kt (map fst fs) -> ~ In kc (map fst fs) -> kt <> kc ->
+  run_sprim {| sdirs := ds; sfiles := fs ++ [(kt, f)] |} (SRename kt kc) = {| sdirs := ds; sfiles := fs ++ [(kc, f)] |}.
+Proof.
+  intros Nt Nc Ne. cbn [run_sprim].
+  assert (HS : shas {| sdirs := ds; sfiles := fs ++ [(kt, f)] |} kt = true).
+  { apply shas_true. unfold keys. cbn [sfiles]. rewrite map_app. apply in_or_app. right. simpl. auto. }
+  rewrite HS. apply skey_eqb_neq in Ne. rewrite Ne. cbn [sdirs sfiles]. f_equal.
+  rewrite filter_app, map_app. f_equal.
+  - apply rename_rest; auto.
+  - simpl. rewrite (skey_eqb_sym kc kt), Ne. simpl. rewrite skey_eqb_refl. reflexivity.
+Qed.
